@@ -1188,6 +1188,9 @@ func (x *Exec) baseEnv(fr *frame, st *State, old *State) *Env {
 // relative to the function entry only the locations of the function's
 // modifies clause changed (an implicit loop invariant).
 func (x *Exec) loopFrame(ct *Contract, ws *WriteSet, st0, cur *State, reach string, check bool, tag, kind string) {
+	if hasStar(ct.Modifies) {
+		return
+	}
 	locs := x.parseModifies(ct, x.topEnv)
 	for _, c := range ws.sorted() {
 		if _, ok := x.so.comps[c]; !ok {
